@@ -80,12 +80,14 @@ COQ_CHUNK = 25
 RESERVED = ['__builtins__', 'variable', 'atom', 'functor', 'functor1', 'functor2', 'functor3', 'listpair',
             'makelist', 'ATOM_NIL', 'unify', 'match_dynamic', 'query', 'True', 'False']
 
-RULE = ('histories of 4-16 operations over {register_function (arity None / n / negative), load_script_from_string '
+RULE = ('histories of 4-16 operations over {register_function (arity None / n / negative; the callable is a plain def or - 60 % - a '
+        'functools.wraps wrapper (single / double), functools.partial, bound method, classmethod, callable instance, lambda with defaults, '
+        'trampoline with __signature__, decorated bound method, each around a fixed-parameter or *args predicate), load_script_from_string '
         '(overwrite on/off; compiled Prolog and hand-written Python: generator functions and lambdas under any key and with any parameter count, '
         'constants / None bound to predicate keys and to other names, del / self-assignment of names, statements raising at exec after some bindings '
         '(1/0, unknown names, import, class), broken Python), registration of non-functions, assert_fact, clear, '
         'start/next/close of suspended queries (created / suspended on a fact / suspended inside a definition while facts '
-        'and definitions change)}; after every operation every name/arity in play is queried (answers in order).  Non-trivial: at some point a key holds >= 2 chained definitions or a name has both an exact and a '
+        'and definitions change)}; after every operation every name/arity in play is queried (answers in order); in 40 % of the cases every name is queried at ALL arities 0..4.  Non-trivial: at some point a key holds >= 2 chained definitions or a name has both an exact and a '
         'variadic definition.  Distinct by hash of the case.')
 TRUSTED_BASE = [
     'Coq 8.16.1 kernel (coqc); vm_compute for the in-Coq evaluation of the model on every case',
